@@ -306,4 +306,18 @@ def boolMembers (v : Ty) : List Ty :=
 def verdictLeak (tbl : ClassTable) (T : BoolTable) (v : Ty) : Bool :=
   (boolMembers v).any (leakM tbl T)
 
+/-! the abstract constraint contains no `PredicateProvider` (whose inverse is the null constraint) -/
+mutual
+def AC.noProvider : AC → Bool
+  | .provider => false
+  | .and cs => AC.noProviderL cs
+  | .or cs => AC.noProviderL cs
+  | .equiv cs => AC.noProviderL cs
+  | _ => true
+def AC.noProviderL : List AC → Bool
+  | [] => true
+  | c :: cs => c.noProvider && AC.noProviderL cs
+end
+
+
 end Pya.C02
